@@ -285,7 +285,7 @@ class PyFlow:
         noreturn: Sequence[str] = (),
         follow_handlers: bool = False,
         super_targets: Optional[Dict[int, ast.FunctionDef]] = None,
-        inline_props: bool = False,
+        inline_props: Any = False,  # True, or a predicate (name, function) selecting the properties to see through
         value_hooks: Optional[Dict[str, Callable[[List[Poly]], Poly]]] = None,
     ) -> None:
         self.value_hooks = value_hooks or {}  # pure helpers whose value another normaliser supplies
@@ -1051,10 +1051,10 @@ class PyFlow:
                 if self.inline_props and depth < self.max_depth:
                     ms = self.typed.get(e.value.id) or self.methods
                     fn_ = ms.get(e.attr)
-                    if fn_ is not None and any("property" in src_of(d_) for d_ in fn_.decorator_list) and e.attr not in self.primitives and (self.inline_filter is None or self.inline_filter(e.attr, fn_)):
+                    if fn_ is not None and any("property" in src_of(d_) for d_ in fn_.decorator_list) and e.attr not in self.primitives and (self.inline_filter is None or self.inline_filter(e.attr, fn_)) and (self.inline_props is True or self.inline_props(e.attr, fn_)):
                         call_ = ast.copy_location(ast.Call(func=e, args=[], keywords=[]), e)
                         return self.call(call_, p, depth, False, no_effect)
-            if self.inline_props and isinstance(e.value, ast.Name) and depth < self.max_depth:
+            if self.inline_props is True and isinstance(e.value, ast.Name) and depth < self.max_depth:
                 # a property of a typed receiver (ctx.bit_offset)
                 rv_ = p.env.get(e.value.id, V(e.value.id))
                 ra_ = single_atom(rv_)
